@@ -104,7 +104,7 @@ def gen_history(rnd: random.Random, flavor: dict) -> dict:
         sc["atoms"] = atoms
         mu = gen.rfloat(rnd, -0.5, 0.5, 4) if scale != "extreme" else gen.rfloat(rnd, -50, 50, 3)
         params.update({"chemical_potential": mu, "number_of_exchange_particles": p0})
-        if rnd.random() < 0.2:
+        if rnd.random() < flavor.get("accessible_volume", 0.2):
             params["accessible_volume"] = gen.logu(rnd, 10.0, 2000.0)
         exch = {"type": "exch", "labels": plabels,
                 "op": {"type": "Translation" if (k == 1 and rnd.random() < 0.8) else "TranslationRotation"},
@@ -274,6 +274,8 @@ def gen_history(rnd: random.Random, flavor: dict) -> dict:
                     ch["pressure"] = gen.logu(rnd, 1e-4, 1e-1)
                 if driver == "GrandCanonical" and rnd.random() < 0.5:
                     ch["chemical_potential"] = gen.rfloat(rnd, -0.5, 0.5, 4)
+                if driver == "GrandCanonical" and rnd.random() < 0.2:
+                    ch["accessible_volume"] = gen.logu(rnd, 10.0, 2000.0)
                 tape[str(t)] = ch
         sc["param_tape"] = tape
     if rnd.random() < flavor.get("preselect", 0.0):
